@@ -24,3 +24,15 @@ claim("C10", "exploration",
       "Thousands of generated models mixing every prefix (and prefix pair) with every elementary type, with der() applied directly, inside expressions, to nested component variables and only in initial equations; the seven variable lists, der_states and outputs of the real Model are compared with the classification the property's precedence gives.",
       "declaration order is compared for single-class models only; String variables are only generated as parameters/constants",
       "DESIGN.md section 4, C10")
+
+claim("C13", "exploration",
+      "reference-model monitor on Variable attributes and variable_metadata_function at random parameter points",
+      "Generated models whose variables in all five metadata lists carry absent/literal/array/affine/non-affine attribute expressions; every attribute is read from the Variable object and from variable_metadata_function(p) at 5 parameter points (incl. 0 and negatives) and compared with the reference evaluation; the evidence counts how often the affine rebuild vs the generic path produced the function.",
+      "attribute expressions reference scalar Real parameters only; NaN compares equal to NaN",
+      "DESIGN.md section 4, C13")
+
+claim("C22", "exploration",
+      "accept/reject oracle at the transfer_model boundary plus value monitor on delay_arguments_function",
+      "Generated models with delay() calls whose durations depend on each variable category (singly and mixed, inside and outside for-loops, with and without expand_vectors) are compiled through the real transfer_model; acceptance must match the generator's knowledge of the duration's dependencies and for accepted models the (expression, duration) pairs returned by delay_arguments_function must equal the reference values.",
+      "durations contain no cancelling terms; pairs are compared as a multiset; any exception counts as rejection (types recorded in the evidence)",
+      "DESIGN.md section 4, C22")
